@@ -308,7 +308,14 @@ def repair(text):
             s = re.sub(r"\+[mp]+:", "+m:", s)
             res.append(s)
         else:
-            nxt = pieces[i + 1][1] if i + 1 < len(pieces) else ""
+            nxt = ""
+            for k2, s2 in pieces[i + 1:]:      # what follows, skipping comments and white space
+                if k2 == "lit" and (s2.startswith("//") or s2.startswith("/*")):
+                    continue
+                if s2.strip() == "":
+                    continue
+                nxt = s2
+                break
             if s[0] in "'\"" and re.match(r"\s*~", nxt):
                 res.append(" ")       # drop the fixed name, keep `~attr`
             elif _is_regex_lit(s) and s[-2] == "\\":
@@ -343,8 +350,8 @@ def run(chk):
     t0 = time.time()
     chk.prove([langpeg_tr.translate])
     chk.notes.append("prove %.1fs" % (time.time() - t0))
-    n = 800 if chk.thorough else 90
-    n_model = 180 if chk.thorough else 36
+    n = 700 if chk.thorough else 70
+    n_model = 150 if chk.thorough else 24
     cases = gen_cases(chk, n)
     texts = [c["text"] for c in cases]
     t0 = time.time()
@@ -386,7 +393,7 @@ def run(chk):
     with open(chk.replay_path("unattributed.json"), "w") as f:
         json.dump([x for x in failures if not x["tags"]], f, indent=1)
     # model correspondence: Model/Peg.v on both dumped tables vs the real parsers
-    sel = [c for c in cases if not c["impl"].get("timeout") and len(c["text"]) <= 160][:n_model]
+    sel = [c for c in cases if not c["impl"].get("timeout") and len(c["text"]) <= (160 if chk.thorough else 100)][:n_model]
     touts = run_texts([c["text"] for c in sel], tables=True) if sel else []
     exprs = []
     for c, o in zip(sel, touts):
